@@ -1,7 +1,9 @@
 (* C05 — reverting to a version restores exactly the state that version recorded.
    Model: Reverter on the blog shape (columns, one-to-many, many-to-many, many-to-one; one level of
-   relationships).  PARTIAL: dotted relationship paths deeper than one level are not modelled (a
-   cyclic dotted path over a many-to-many pair is a suspected defect that is not decided here).
+   relationships).  PARTIAL: for dotted relationship paths there is no functional model of the result; `reach`
+   (Model/Revert.v) lists the versions the call visits, following first_level / subpaths of reverter.py
+   (C05_first_level_spec, C05_subpaths_spec), and the check requires of every entity reached once that it holds
+   the values of the version it was reached by (Checks/C05chk.v nested_ok).
    "Which children / links the version shows" is C04; "the revert is itself versioned like any other
    change" is C01 applied to the recorded revert transaction (checked on every run). *)
 From Continuum Require Import Model.Base Model.VTable Model.Rel Model.Revert Proofs.RevertP.
@@ -38,6 +40,23 @@ Theorem C05_children_added_since_go_away : forall tt tl av L v labels k a fk,
   exists c, In c (rel_o2m 1 tt v) /\ key0 c = k.
 Proof. exact revert_article_removes_later_children. Qed.
 
+(* dotted paths: the relationship names restored at a node are the first segments of the paths handed to it, the
+   paths handed to a child reached by relationship r are the remainders of the paths that start with r and go on *)
+Theorem C05_first_level_spec : forall paths h, In h (heads paths) <-> exists t, In (h :: t) paths.
+Proof. exact heads_In. Qed.
+Theorem C05_subpaths_spec : forall paths r p, In p (subpaths paths r) <-> p <> [] /\ In (r :: p) paths.
+Proof. exact subpaths_In. Qed.
+
+(* the traversal on a three-segment path: article 1 -> label 1 -> article 2 -> tag 1 *)
+Example C05_reach_example :
+  let T := mkrt [mkv [1] 1 None 0 [Some 1; None] []; mkv [2] 1 None 0 [Some 1; None] []; mkv [2] 2 None 1 [Some 2; None] []]
+                [mkv [1] 1 None 0 [Some 1; Some 2] []; mkv [1] 2 None 1 [Some 2; Some 2] []]
+                [mkv [1] 1 None 0 [Some 1] []]
+                [mklnk 1 1 1 0; mklnk 2 1 1 0] in
+  map (fun n => (rn_cls n, rn_key n, rn_tx n)) (reach 6 T (0%nat, 1) 0 (mkv [1] 1 None 0 [Some 1; None] []) [[R_LABELS; R_ARTICLES; R_TAGS]]) =
+  [(0%nat, 1, 1); (2%nat, 1, 1); (0%nat, 2, 1); (1%nat, 1, 1)].
+Proof. vm_compute. reflexivity. Qed.
+
 Example C05_example :
   let tt := [mkv [1] 1 None 0 [Some 0; Some 7] []; mkv [2] 3 None 0 [Some 0; Some 7] []] in
   let L := mkrl [(7, [Some 5; None; Some 9])] [(1, [Some 0; None]); (2, [Some 0; Some 7])] [] [] in
@@ -51,4 +70,7 @@ Print Assumptions C05_delete_version_leaves_entity_absent.
 Print Assumptions C05_unnamed_relationships_untouched.
 Print Assumptions C05_links_reset.
 Print Assumptions C05_children_added_since_go_away.
+Print Assumptions C05_first_level_spec.
+Print Assumptions C05_subpaths_spec.
+Print Assumptions C05_reach_example.
 Print Assumptions C05_example.
